@@ -243,7 +243,8 @@ def retrieval_matcher(
     matched_y_prob: Same as y_pro but autofilled with 1s when not provided.
   """
   matched_true_prob, matched_pred_prob, matched_y_prob = [], [], []
-  y_prob = y_prob or [None] * len(y_true)
+  if y_prob is None:
+    y_prob = [None] * len(y_true)
   for row_true, row_pred, row_prob in zip(y_true, y_pred, y_prob, strict=True):
     row_prob = (
         np.ones_like(row_pred, dtype=np.float32)
